@@ -2223,7 +2223,7 @@ func (p *parser) parseElementListOrComprehension() (list []ast.Expr, mce *ast.Co
 		list = append(list, p.parseElement())
 		if p.tok == token.FOR { // for k, v <- container
 			if len(list) != 1 {
-				log.Panicln("TODO: invalid comprehension: too may elements.")
+				p.error(p.pos, "invalid comprehension: too many elements before 'for'")
 			}
 			phrases := p.parseForPhrases()
 			return nil, &ast.ComprehensionExpr{Elt: list[0], Fors: phrases}
@@ -3387,7 +3387,10 @@ func (p *parser) parseForPhraseStmtPart(lhs []ast.Expr) *ast.ForPhraseStmt {
 	case 2:
 		stmt.Key, stmt.Value = p.toIdent(lhs[0]), p.toIdent(lhs[1])
 	default:
-		log.Panicln("TODO: parseForPhraseStmt - too many variables, 1 or 2 is required")
+		p.error(tokPos, "too many variables in for phrase, 1 or 2 is required")
+		if len(lhs) > 2 {
+			stmt.Key, stmt.Value = p.toIdent(lhs[0]), p.toIdent(lhs[1])
+		}
 	}
 	return stmt
 }
